@@ -37,9 +37,34 @@ def gen_scenarios(rng, n):
             ops = [operand(rng, labels) for _ in range(n_ops)]
             a = operand(rng, labels) if geq else None
             steps.append({"mode": "gate", "gate": gate, "geq": geq, "a": a, "ops": ops, "lam": rng.choice([1, 2, 3, 0.5])})
-        scens.append({"labels": labels, "steps": steps, "objective": None, "arg_form": "dict",
+        # a model that already has terms on the operands' monomials (an objective): what a gate method adds must be added
+        objective = None
+        if rng.random() < 0.4:
+            objective = cs.gen_poly(rng, labels[:4], maxdeg=2, maxterms=4, coefs=(-2, 1, 3))
+        scens.append({"labels": labels, "steps": steps, "objective": objective, "arg_form": "dict",
                       "fork": rng.choice([None, None, None, "copy", "add0", "mul1", "ctor", "neg"])})
     return scens
+
+
+def directed_scenarios():
+    """gate constraints whose polynomial has the shape  z - x*y  (the special path of the equality method), on a model that
+    already holds terms on exactly those monomials - an objective, or an earlier constraint"""
+    a, b, c = "a", "b", "c"
+    labels = [a, b, c, "d", "e", "f"]
+    prod = {(b, c): 1}
+    objective = {(a,): 2, (b, c): -1, (a, b): 3, (a, c): 1, (): 1}
+    out = []
+    for obj in (objective, None):
+        for pre in (None, {"mode": "gate", "gate": "NOT", "geq": False, "a": None, "ops": [("label", a, {(a,): 1})], "lam": 2},
+                    {"mode": "gate", "gate": "AND", "geq": False, "a": None, "ops": [("label", a, {(a,): 1}), ("label", b, {(b,): 1})], "lam": 1}):
+            if obj is None and pre is None:
+                continue
+            for gate, ops in (("BUFFER", [("dict", prod, prod)]), ("BUFFER", [("pubo", prod, prod)]),
+                              ("AND", [("label", b, {(b,): 1}), ("label", c, {(c,): 1})])):
+                for lam in (1, 0.5):
+                    steps = ([pre] if pre else []) + [{"mode": "gate", "gate": gate, "geq": True, "a": ("label", a, {(a,): 1}), "ops": ops, "lam": lam}]
+                    out.append({"labels": labels, "steps": steps, "objective": obj, "arg_form": "dict", "fork": None})
+    return out
 
 
 def describe(sc):
@@ -60,7 +85,7 @@ def run(tier, out, replay=None):
             out.add("transitions", r.generated)
             if not r.ok:
                 out.violation("spec:" + ",".join(r.violated), "spec-level gates " + ",".join(r.violated), r.stdout[-2500:])
-        scens = gen_scenarios(rng, 5000 if thorough else 600)
+        scens = directed_scenarios() + gen_scenarios(rng, 5000 if thorough else 600)
         if replay:
             scens = [scens[json.load(open(replay))["record"]["seed_scenario"]]]
         recs, owners = c02.run_scenarios(scens, False)
